@@ -20,7 +20,9 @@ LEVEL = "exploration"
 TIMEOUT_S = 60.0
 RULE = ("one run = 1-4 clients with scripts of REGISTER / MAYBE_UNLINK / UNREGISTER / PROBE over <= 4 files and <= 2 "
         "folders (files inside tracked folders included), unbalanced requests (more decrements than increments, unknown "
-        "names), malformed lines (no separator, unknown type, unknown command, non-ASCII), merged in a seeded order, "
+        "names), malformed lines (no separator, unknown type, unknown command, non-ASCII), client-side creation / removal of "
+        "the paths themselves (registered before they exist, removed before the tracker gets to them, re-created later), "
+        "merged in a seeded order, "
         "clients killed at seeded points, EOF when the last client is gone; invariants checked at every readline(); "
         "distinct = digest of the delivered line kinds; non-trivial = some resource reached refcount zero while another "
         "was still held, or a client was killed holding registrations")
@@ -39,10 +41,18 @@ FOLDERS = ["d0", "d1"]
 def gen_case(rng):
     nclients = rng.choice([1, 2, 2, 3, 4])
     scripts = []
+    fs_ops = rng.random() < 0.35
+    focus = rng.sample(FILES + FOLDERS, rng.choice([1, 2])) if fs_ops else []
     for c in range(nclients):
         sc = []
         for _ in range(rng.randint(1, 9)):
             r = rng.random()
+            if fs_ops and rng.random() < 0.7:
+                # histories about one or two paths: registered, released, created, removed, registered again ...
+                nm = rng.choice(focus)
+                sc.append([rng.choice(["REGISTER", "REGISTER", "MAYBE_UNLINK", "MAYBE_UNLINK", "MAYBE_UNLINK", "FS_CREATE", "FS_REMOVE", "UNREGISTER"]),
+                           nm, "folder" if nm in FOLDERS else "file"])
+                continue
             if r < 0.4:
                 sc.append(["REGISTER", rng.choice(FILES), "file"])
             elif r < 0.7:
@@ -55,6 +65,11 @@ def gen_case(rng):
                 sc.append(["MAYBE_UNLINK", rng.choice(FOLDERS + ["decoydir"]), "folder"])
             elif r < 0.93:
                 sc.append(["PROBE", "0", "noop"])
+            elif fs_ops and r < 0.97:
+                # the client touches the file system itself: creates a (possibly registered-but-not-yet-existing) path,
+                # or removes one before the tracker does
+                nm = rng.choice(FILES + FOLDERS)
+                sc.append([rng.choice(["FS_CREATE", "FS_REMOVE"]), nm, "folder" if nm in FOLDERS else "file"])
             else:
                 sc.append(["RAW", rng.choice(["garbage", "REGISTER:f0", "REGISTER:f0:weird", "EXPLODE:f0:file", "REGISTER:f\xe9:file",
                                               "::", "", "MAYBE_UNLINK:decoy:folder", "REGISTER:a:b:c:file"]), ""])
@@ -69,7 +84,11 @@ def gen_case(rng):
             events.append(["kill", c]); pending[c] = []
             continue
         events.append(["line", c] + pending[c].pop(0))
-    return {"events": events, "n_clients": nclients}
+    case = {"events": events, "n_clients": nclients}
+    if fs_ops:
+        # paths that do not exist yet when the tracker starts (registered before they are created, or never created)
+        case["absent"] = sorted(n for n in FILES + FOLDERS if rng.random() < (0.5 if n in focus else 0.2))
+    return case
 
 
 N_REAL = {"quick": 16, "thorough": 600}
@@ -99,7 +118,10 @@ def plan(tier, seed):
     # a small real end-to-end tier first (real tracker process, real client processes, real SIGKILL):
     # cross-check of the pipe / EOF model the simulation rests on
     for i in range(N_REAL[tier] if not os.environ.get("VERIF_RUNS") else 4):
-        yield dict(gen_case(random.Random(H(seed, PROP, "real", i))), real=True)
+        rr = random.Random(H(seed, PROP, "real", i))
+        # the way clients get killed in practice is often a signal to the whole process group (Ctrl-C, `timeout`, a job
+        # scheduler): the tracker receives it as well -- also while it is still starting up -- and has to survive it
+        yield dict(gen_case(rr), real=True, group_signal=rr.choice([None, "SIGTERM", "SIGINT", "SIGTERM"]))
     for i in range(N_TRM[tier] if not os.environ.get("VERIF_RUNS") else 50):
         yield gen_trm_case(random.Random(H(seed, PROP, "trm", i)))
     for i in range(hz_runs(N_RUNS, tier)):
@@ -248,6 +270,10 @@ def run_real_case(case):
         tracker = rt.ResourceTracker()
         tracker.ensure_running()
         fd, tpid = tracker._fd, tracker._pid
+        gsig = getattr(signal, case.get("group_signal") or "", None)
+        nsig = 0
+        if gsig is not None:
+            os.kill(tpid, gsig); nsig += 1          # arrives while the tracker process is still starting up
         clients = {}
         for c in range(case["n_clients"]):
             r_cmd, w_cmd = os.pipe(); r_ack, w_ack = os.pipe()
@@ -276,11 +302,18 @@ def run_real_case(case):
         P = lambda n: os.path.join(root, n)  # noqa
         delivered = 0; killed = 0
         for ev in case["events"]:
+            if ev[0] == "line" and ev[2] in ("FS_CREATE", "FS_REMOVE"):
+                continue                     # client-side file-system events belong to the simulated tier
             if ev[0] == "kill":
                 cl = clients[ev[1]]
                 if cl["alive"]:
                     os.kill(cl["pid"], signal.SIGKILL); os.waitpid(cl["pid"], 0); cl["alive"] = False
                     os.close(cl["w"]); os.close(cl["r"]); killed += 1
+                    if gsig is not None:
+                        try:
+                            os.kill(tpid, gsig); nsig += 1     # the signal that killed the client reached the tracker too
+                        except OSError:
+                            pass
                 continue
             _, c, cmd, name, rtype = ev
             cl = clients[c]
@@ -333,7 +366,8 @@ def run_real_case(case):
                                "sig": {"what": "deleted_unregistered_path", "real": True}}; break
         dg = hashlib.sha256(repr(sorted(os.path.relpath(p, root) for p in deleted)).encode()).hexdigest()
         return {"verdict": verdict, "digest": dg[:24], "shape": "real:" + dg[:12], "steps": delivered, "switches": 0, "sim_time": 0.0,
-                "faults": {"real_client_sigkill": killed} if killed else {}, "probes": {"real_tracker_runs": 1},
+                "faults": {k_: v_ for k_, v_ in {"real_client_sigkill": killed, "signal_delivered_to_real_tracker": nsig}.items() if v_},
+                "probes": {"real_tracker_runs": 1},
                 "nontrivial": bool(deleted), "sample": {"real": True, "events": case["events"][:6]}}
     finally:
         try:
@@ -353,13 +387,20 @@ def run_case(case):
     root = tempfile.mkdtemp(prefix="c20_", dir="/dev/shm")
     h = hashlib.sha256(); hs = hashlib.sha256()
     try:
+        absent = set(case.get("absent") or ())
+        absent |= {f for f in FILES if "/" in f and f.split("/")[0] in absent}
         for d in FOLDERS + ["decoydir"]:
-            os.mkdir(os.path.join(root, d))
+            if d not in absent:
+                os.mkdir(os.path.join(root, d))
         for f in FILES + ["decoy", "decoydir/x", "bystander"]:
-            open(os.path.join(root, f), "w").close()
+            if f not in absent:
+                open(os.path.join(root, f), "w").close()
         P = lambda n: os.path.join(root, n)  # noqa
         model = {"file": {}, "folder": {}}
         deleted = set()          # paths the tracker must have deleted by now
+        gone = {P(n) for n in absent}    # paths legitimately absent for another reason (not created yet, removed by a client,
+                                         # or content of a folder that was deleted)
+        fs_events = [0]
         unregistered = set()
         state = {"line": 0, "viol": None, "zero_while_other_held": 0, "killed_holding": 0, "delivered": 0}
         cleanup_log = []
@@ -376,7 +417,7 @@ def run_case(case):
                 name = os.path.relpath(p, root)
                 if p in deleted and ex:
                     state["viol"] = ("not_deleted_at_zero", "%s: refcount returned to zero at line %d but the path still exists (%s)" % (name, state["line"], where))
-                elif p not in deleted and not ex and not inside_deleted_folder(p):
+                elif p not in deleted and not ex and not inside_deleted_folder(p) and p not in gone:
                     held = model["file"].get(p, 0) + model["folder"].get(p, 0)
                     kind = "deleted_while_held" if held > 0 else "deleted_unregistered_path"
                     state["viol"] = (kind, "%s does not exist any more (refcount %d, %s, line %d)" % (name, held, where, state["line"]))
@@ -398,6 +439,26 @@ def run_case(case):
                         hs.update(b"K")
                         continue
                     _, c, cmd, name, rtype = ev
+                    if cmd in ("FS_CREATE", "FS_REMOVE"):
+                        hs.update(cmd[3:5].encode()); fs_events[0] += 1
+                        p = P(name)
+                        inside = [q for q in all_paths if q.startswith(p + os.sep)]
+                        if cmd == "FS_CREATE":
+                            if os.path.isdir(os.path.dirname(p)) and not os.path.exists(p):
+                                if rtype == "folder":
+                                    os.mkdir(p)
+                                else:
+                                    open(p, "w").close()
+                                deleted.discard(p); gone.discard(p)
+                                gone.update(inside)          # a re-created folder is empty
+                        elif os.path.exists(p):
+                            if rtype == "folder":
+                                shutil.rmtree(p)
+                            else:
+                                os.unlink(p)
+                            gone.add(p); gone.update(inside)
+                        check("after the client's own %s of %s" % (cmd[3:].lower(), name))
+                        continue
                     state["line"] += 1; state["delivered"] += 1
                     hs.update(cmd[:3].encode())
                     if cmd == "RAW":
@@ -412,6 +473,7 @@ def run_case(case):
                         model[rtype][p] -= 1
                         if model[rtype][p] == 0:
                             del model[rtype][p]; deleted.add(p)
+                            gone.update(q for q in all_paths if q.startswith(p + os.sep))
                             if any(v > 0 for t in model.values() for v in t.values()):
                                 state["zero_while_other_held"] += 1
                     return ("%s:%s:%s\n" % (cmd, p, rtype)).encode("ascii")
@@ -451,6 +513,7 @@ def run_case(case):
         for t in model:
             for p in list(model[t]):
                 deleted.add(p)
+                gone.update(q for q in all_paths if q.startswith(p + os.sep))
         model = {"file": {}, "folder": {}}
         check("after EOF")
         if verdict is None and state["viol"] is not None:
@@ -470,7 +533,9 @@ def run_case(case):
         return {"verdict": verdict, "digest": h.hexdigest()[:24], "shape": hs.hexdigest()[:16], "steps": state["delivered"],
                 "switches": 0, "sim_time": 0.0,
                 "faults": {k: v for k, v in {"client_killed": sum(1 for e in case["events"] if e[0] == "kill"),
-                                              "malformed_or_unbalanced_line": sum(1 for e in case["events"] if e[0] == "line" and (e[2] == "RAW" or e[3] in ("nope", "decoy", "decoydir")))}.items() if v},
+                                              "malformed_or_unbalanced_line": sum(1 for e in case["events"] if e[0] == "line" and (e[2] == "RAW" or e[3] in ("nope", "decoy", "decoydir"))),
+                                              "client_side_create_or_remove": fs_events[0],
+                                              "registered_path_absent_at_start": len(case.get("absent") or ())}.items() if v},
                 "probes": {"refcount_zero_while_others_held": state["zero_while_other_held"], "killed_client_left_registrations": state["killed_holding"]},
                 "nontrivial": bool(state["zero_while_other_held"] or state["killed_holding"]),
                 "sample": case["events"][:8]}
